@@ -8,7 +8,7 @@ export REPO=${REPO:-/tmp/wt2}
 for id in "$@"; do
   p=${id%%-*}
   case "$id" in
-    *-D*|*-G*|*-H*)
+    *-D*|*-G*|*-H*|*-J*)
       python3 /verif/tools/seedtest.py $out/$id --import-as $id --props $p > /tmp/imp-$id.log 2>&1
       python3 - "$id" <<'PY'
 import json,sys
@@ -19,7 +19,7 @@ try:
 except Exception as e: print(i,'ERR',s[-300:])
 PY
       ;;
-    *-R*|*-T*|*-U*)
+    *-R*|*-T*|*-U*|*-V*)
       mkdir -p /verif/benign/$id; cp $out/$id/patch.diff /verif/benign/$id/; [ -f $out/$id/notes.md ] && cp $out/$id/notes.md /verif/benign/$id/
       python3 /verif/tools/benign_matrix.py $id | grep -v "^quiet on"
       ;;
